@@ -732,20 +732,27 @@ func ruleGxzFlags(c *Ctx, r *Report, prefix string) {
 						continue
 					}
 					n++
-					// value: phi(true: [keep true], load stdout) — `a || b` lowers to a φ
-					if ph, ok := st.Val.(*ssa.Phi); ok && len(ph.Edges) == 2 {
-						var hasTrue, hasStdout bool
-						for _, e := range ph.Edges {
-							if bv, isB := constBool(e); isB && bv {
-								hasTrue = true
-							}
-							if isFieldLoadOf(e, fOS) || isFieldLoadOf(e, fOK) {
-								hasStdout = true
+					// the stored value as a boolean function of the two flags (`a || b` lowers to a φ;
+					// !(!a && !b) to a negated φ): evaluated for all four assignments
+					same := true
+					for _, kv := range []bool{false, true} {
+						for _, sv := range []bool{false, true} {
+							got, okE := evalBoolValue(st.Val, func(v ssa.Value) (bool, bool) {
+								switch {
+								case isFieldLoadOf(v, fOK):
+									return kv, true
+								case isFieldLoadOf(v, fOS):
+									return sv, true
+								}
+								return false, false
+							}, 0)
+							if !okE || got != (kv || sv) {
+								same = false
 							}
 						}
-						if hasTrue && hasStdout {
-							good++
-						}
+					}
+					if same {
+						good++
 					}
 				}
 			}
@@ -921,4 +928,66 @@ func isPathPlusNonEmptyOf(v ssa.Value, base func(ssa.Value) bool) bool {
 		return len(x.Edges) > 0
 	}
 	return false
+}
+
+// evalBoolValue evaluates a boolean SSA value built from constants, negation, comparisons of booleans
+// and short-circuit φ-nodes, given the values of its leaves. A φ is resolved by following the branches
+// from the block that dominates it.
+func evalBoolValue(v ssa.Value, leaf func(ssa.Value) (bool, bool), depth int) (bool, bool) {
+	if depth > 12 {
+		return false, false
+	}
+	if b, ok := leaf(v); ok {
+		return b, true
+	}
+	switch x := v.(type) {
+	case *ssa.Const:
+		return constBool(x)
+	case *ssa.UnOp:
+		if x.Op == token.NOT {
+			b, ok := evalBoolValue(x.X, leaf, depth+1)
+			return !b, ok
+		}
+	case *ssa.BinOp:
+		if x.Op == token.EQL || x.Op == token.NEQ {
+			a, ok1 := evalBoolValue(x.X, leaf, depth+1)
+			b, ok2 := evalBoolValue(x.Y, leaf, depth+1)
+			return (a == b) == (x.Op == token.EQL), ok1 && ok2
+		}
+	case *ssa.Phi:
+		blk := x.Block()
+		cur := blk.Idom()
+		for steps := 0; cur != nil && steps < 16; steps++ {
+			if len(cur.Instrs) == 0 {
+				return false, false
+			}
+			var next *ssa.BasicBlock
+			switch t := cur.Instrs[len(cur.Instrs)-1].(type) {
+			case *ssa.If:
+				cv, ok := evalBoolValue(t.Cond, leaf, depth+1)
+				if !ok {
+					return false, false
+				}
+				if cv {
+					next = cur.Succs[0]
+				} else {
+					next = cur.Succs[1]
+				}
+			case *ssa.Jump:
+				next = cur.Succs[0]
+			default:
+				return false, false
+			}
+			if next == blk {
+				for i, pb := range blk.Preds {
+					if pb == cur {
+						return evalBoolValue(x.Edges[i], leaf, depth+1)
+					}
+				}
+				return false, false
+			}
+			cur = next
+		}
+	}
+	return false, false
 }
